@@ -13,6 +13,10 @@ import copy
 import json
 import os
 
+try:  # the workbook producer's dependency, loaded once in the controller (workers and nodes are forks of it)
+    import openpyxl  # noqa: F401
+except ImportError:  # pragma: no cover
+    pass
 from sim import prng
 from sim.engine import World
 from sim.node import LineTracer, SimClock, drop_scratch, fork_call, make_scratch, run_plain
@@ -160,6 +164,13 @@ def service_answer(problem, fclass, name, count_lines):
     from OpenPinch.main import pinch_analysis_service
 
     def call():
+        if fclass.startswith("file:"):
+            # a problem file on the scratch disk, loaded and targeted through a new wrapper
+            from OpenPinch.classes.pinch_problem import PinchProblem
+
+            w = PinchProblem()
+            w.load(fclass[5:])
+            return w.target().model_dump_json()
         d = copy.deepcopy(problem)
         data = TargetInput.model_validate(d) if fclass == "model" else d
         return pinch_analysis_service(data, project_name=name).model_dump_json()
@@ -186,7 +197,8 @@ class C11(World):
     thorough = dict(runs=200000, budget_s=1500)
     components_real = [
         "OpenPinch.main.pinch_analysis_service and everything below it (validation, preparation, direct/indirect targeting, graphs, serialisation)",
-        "OpenPinch.classes.pinch_problem.PinchProblem (load from model / JSON file, target, export_to_Excel, run=True constructor)",
+        "OpenPinch.classes.pinch_problem.PinchProblem (load from model / JSON file / workbook / CSV bundle, target, export_to_Excel, run=True constructor)",
+        "OpenPinch.utils.wkbook_to_json / csv_to_json (real readers on producer-written files)",
         "OpenPinch.utils.export (real workbook writer on a scratch directory)",
     ]
     components_stub = [
@@ -200,7 +212,7 @@ class C11(World):
         "each run = one generated history (3-25 operations) issued by 1-3 interleaved simulated callers in one process: "
         "service calls on corpus / perturbed / synthetic / invalid problems passed as shared dict, copied dict, fresh model or the "
         "same model object reused, under varying project names; PinchProblem wrappers loaded from a model (possibly another caller's) "
-        "or a JSON file, targeted, exported; constructor with run=True; aborts at a generated fraction of the call's library lines; "
+        "or a JSON file / workbook / CSV bundle (optionally loaded once, the dictionary handed out edited by the caller, and the untouched file loaded again by a second wrapper), targeted, exported; constructor with run=True; aborts at a generated fraction of the call's library lines; "
         "clock jumps.  distinct = distinct step list + problem set; non-trivial = >=2 analysis calls in the history."
     )
     assumptions = [
@@ -327,8 +339,10 @@ class C11(World):
                 # handed out must not follow, i.e. they may not alias the caller's lists / dicts
                 st = dict(op="mutate_own_dict", p=p, what=args.choice(["scale_duty", "rename_stream", "drop_stream", "clear_options"]))
             elif op == "wload":
-                via = args.choice(["model_shared", "model_fresh", "json", "json", "from_json_shared"])
+                via = args.choice(["model_shared", "model_fresh", "json", "json", "from_json_shared", "xlsx", "csv_dir"])
                 st = dict(op="wload", p=p, via=via, owner=args.randrange(swarm["clients"]), stem=args.choice(["case", "run A", "Project", f"prob{p}"]))
+                if via in ("xlsx", "csv_dir", "json") and args.random() < 0.4:
+                    st["twin"] = True  # loaded once, the dictionary handed out is edited by the caller, then the untouched file is loaded by a second wrapper
                 n_wr += 1
             elif op == "wrun":
                 st = dict(op="wrun", p=p, stem=args.choice(["case", "auto", f"prob{p}"]), export=args.random() < 0.5)
@@ -408,6 +422,22 @@ class C11(World):
             f = fingerprint(exclude_paths=exclude)
             return {k: v for k, v in f.items() if not k.endswith(FP_EXCLUDE_SUFFIX)}
 
+        def edit_loaded_dict(w_):
+            """The caller edits, in place, the dictionary a load handed out (its own business): no later load may see the edit."""
+            d_ = w_.problem_data
+            if isinstance(d_, dict) and isinstance(d_.get("streams"), list) and d_["streams"]:
+                s0 = d_["streams"][0]
+                if isinstance(s0, dict):
+                    hf = s0.get("heat_flow")
+                    if isinstance(hf, dict) and isinstance(hf.get("value"), (int, float)):
+                        hf["value"] = hf["value"] * 3 + 1000.0
+                    elif isinstance(hf, (int, float)):
+                        s0["heat_flow"] = hf * 3 + 1000.0
+                    s0["name"] = "edited by the caller"
+                if len(d_["streams"]) > 1:
+                    d_["streams"].pop()
+                probe("caller_edited_the_loaded_dictionary")
+
         shared_dict: dict[tuple, dict] = {}
         shared_model: dict[tuple, object] = {}
         shared_hybrid: dict[tuple, object] = {}
@@ -456,6 +486,15 @@ class C11(World):
                     V("exc_eq", f"oracle_{ans['kind']}->node_raise|{site_form}|after_{last_kind}", step, f"node raised {type(val).__name__}: {str(val)[:120]}; pristine process: {ans['kind']} {ans.get('type', '')}")
                 last_kind = "failure"
                 return out
+            if not hasattr(val, "model_dump_json"):
+                # the call came back without raising and without a result object (None, a bare dict, ...)
+                tick("fresh_eq")
+                if ans["kind"] == "ok":
+                    V("fresh_eq", f"not_a_result:{type(val).__name__}|{site_form}|after_{last_kind}", step, f"the call returned {type(val).__name__} where the same call in a pristine process returns a result")
+                else:
+                    V("exc_eq", f"oracle_raise->node_ok|{site_form}|after_{last_kind}", step, f"node returned {type(val).__name__}; pristine process raised {ans['type']}: {ans['msg'][:120]}")
+                last_kind = "ok"
+                return "ok:" + type(val).__name__
             text = val.model_dump_json()
             if ans["kind"] != "ok":
                 V("exc_eq", f"oracle_raise->node_ok|{site_form}|after_{last_kind}", step, f"node returned a result; pristine process raised {ans['type']}: {ans['msg'][:120]}")
@@ -724,7 +763,31 @@ class C11(World):
                             with open(path, "w") as f:
                                 json.dump(probs[p], f)
                             w.load(path)
-                            rec.update(fc="dict", name=st["stem"], src=path, data=None, snap=None, filebytes=open(path, "rb").read())
+                            if st.get("twin"):
+                                edit_loaded_dict(w)
+                                w = PinchProblem()
+                                w.load(path)
+                            rec.update(obj=w, fc="dict", name=st["stem"], src=path, data=None, snap=None, filebytes=open(path, "rb").read())
+                        elif via in ("xlsx", "csv_dir"):
+                            # the other file readers (workbook, CSV bundle): the reference is the very same load + target on the very
+                            # same file in a pristine process, so whatever the producer wrote, the comparison is like for like
+                            from worlds import c16 as _c16
+
+                            dd = os.path.join(scratch, f"in{step}")
+                            os.makedirs(dd, exist_ok=True)
+                            path = os.path.join(dd, st["stem"] + (".xlsx" if via == "xlsx" else ""))
+                            if via == "xlsx":
+                                _c16.write_xlsx(path, probs[p])
+                            else:
+                                _c16.write_csv(path, probs[p])
+                            probe("problem_file_written:" + via)
+                            w.load(path)
+                            if st.get("twin"):
+                                edit_loaded_dict(w)
+                                w = PinchProblem()
+                                w.load(path)
+                            rec.update(obj=w, fc="file:" + path, name=st["stem"], src=path, data=None, snap=None, filebytes=(open(path, "rb").read() if via == "xlsx" else None))
+                            probe("wrapper_loaded_from:" + via)
                         elif via == "from_json_shared":
                             # PinchProblem.from_json(dict) with the caller's own reusable dictionary
                             dsh = shared_dict.setdefault((c, p), copy.deepcopy(probs[p]))
@@ -812,12 +875,12 @@ class C11(World):
                                 outcome = "ok:cached_edited"
                                 log.append([c, op, outcome])
                                 continue
-                            outcome = judge_call(step, st, key, kind, val, "wrapper_" + rec["fc"], fpb, data, snap, tr)
+                            outcome = judge_call(step, st, key, kind, val, "wrapper_" + rec["fc"].split(":")[0], fpb, data, snap, tr)
                             if had and kind == "ok" and held and len(held) >= 2 and held[-1][0] is held[-2][0]:
                                 held.pop()
                             if kind == "ok" and rec.get("zone_digest") is None and w.master_zone is not None:
                                 rec["zone_digest"] = zone_digest(w.master_zone)
-                                rec["res_text"] = val.model_dump_json()
+                                rec["res_text"] = val.model_dump_json() if hasattr(val, "model_dump_json") else None
                             check_held(step)
                         else:
                             out_dir = os.path.join(scratch, f"out{st['w'] % len(wrappers)}")
@@ -842,7 +905,7 @@ class C11(World):
                                     if a["kind"] == "ok":
                                         text = w.results.model_dump_json()
                                         if text != a["json"]:
-                                            V("fresh_eq", f"{diff_class(text, a['json'])}|export_wrapper_{rec['fc']}|after_{last_kind}", step, "result computed during export differs from a pristine process")
+                                            V("fresh_eq", f"{diff_class(text, a['json'])}|export_wrapper_{rec['fc'].split(':')[0]}|after_{last_kind}", step, "result computed during export differs from a pristine process")
                                         held.append((w.results, text))
                             else:
                                 outcome = "raise:" + type(val).__name__
@@ -922,7 +985,7 @@ class C11(World):
         if answers:
             # oracle samples for cross-validation against genuinely fresh interpreters under other hash seeds
             # (problems with a zone tree first: label resolution is where set/dict ordering can leak into results)
-            ks = [k for k in answers if not any(o in (probs[k[0]].get("options") or {}) for o in ("DO_PROCESS_HP_TARGETING", "DO_UTILITY_HP_TARGETING")) and len(probs[k[0]].get("streams", [])) <= 30]
+            ks = [k for k in answers if not str(k[1]).startswith("file:") and not any(o in (probs[k[0]].get("options") or {}) for o in ("DO_PROCESS_HP_TARGETING", "DO_UTILITY_HP_TARGETING")) and len(probs[k[0]].get("streams", [])) <= 30]
             ks = sorted(ks, key=lambda k: (0 if probs[k[0]].get("zone_tree") else 1, k))[:2]
             res["aux"] = [dict(problem=probs[p], fc=fc, name=name, digest=prng.digest(answers[(p, fc, name)].get("json") if answers[(p, fc, name)]["kind"] == "ok" else [answers[(p, fc, name)]["type"]])) for (p, fc, name) in ks]
         return res
